@@ -90,7 +90,8 @@ def main():
             print("[seed] patched demo exit=%d %s" % (rc1, out1.strip()[-300:]))
             meta["confirmed"]["ok"] = bool(passed and rc1 != 0 and meta["confirmed"].get("demo_unpatched_exit") == 0)
         sh("rm -rf _build", cwd=wt)
-        env = {"XMP_REPO": wt, "XMP_VERIF_CACHE": "/var/tmp/xmpverif-seed-" + a.name}
+        env = {"XMP_REPO": wt, "XMP_VERIF_CACHE": "/var/tmp/xmpverif-seed-" + a.name,
+               "XMP_VERIF_EVID": "/var/tmp/xmpverif-seed-" + a.name + "/evidence"}
         for c in checks:
             for seed in a.seeds.split(","):
                 t0 = time.time()
